@@ -92,7 +92,7 @@ def run_one(k, cfg):
                          stderr=subprocess.PIPE, start_new_session=True)
     timed_out = False
     try:
-        out, err = p.communicate(timeout=400)
+        out, err = p.communicate(timeout=400 + 60 * runs.calibrate())
     except subprocess.TimeoutExpired:
         timed_out = True
         os.killpg(p.pid, signal.SIGKILL)
@@ -145,7 +145,8 @@ def main():
         'hit a fault; distinct by (configuration, execution)')
     rep.assumptions += [
         'slack for the total-time bound: 3 s + 0.1 s per test (interpreter '
-        'and pool start-up), an order of magnitude above the measured values',
+        'and pool start-up) + 3 x the measured wall time of a small complete '
+        'run per 40 tests (scales with the load of the machine)',
         'grandchildren of the command are not "the command process"; they are '
         'reaped by the harness',
     ]
@@ -180,6 +181,7 @@ def main():
                  (('spin', ), 'ddmin', 1, False, True)][
                      :1 if a.tier == 'quick' else 2]
     from concurrent.futures import ThreadPoolExecutor
+    runs.calibrate()
     with ThreadPoolExecutor(5) as ex:
         results = list(ex.map(lambda kv: run_one(*kv), enumerate(cfgs)))
     cases = []
@@ -212,7 +214,10 @@ def main():
             limit = gold['timeout']
         if limit is None:
             raise common.MachineryError('no limit recorded')
-        bound = ntests * limit / 1.0 + 3.0 + 0.1 * ntests
+        # tests x limit, plus ddSMT's own work per test, which is measured on
+        # this machine right now (a loaded machine must not look like a stall)
+        bound = ntests * limit / 1.0 + 3.0 + 0.1 * ntests + \
+            3.0 * runs.calibrate() * max(1.0, ntests / 40.0)
         if rr['wall'] > bound:
             rep.violation(
                 f'total-time:{sig}',
